@@ -332,6 +332,7 @@ func buildFormula(root *Node, targets []*Node) string {
 			marked[n] = true
 		}
 	}
+	canaryRun := len(targets) > 0 && targets[0].Name == "canary"
 	var build func(n *Node) string
 	build = func(n *Node) string {
 		var conj []string
@@ -355,6 +356,11 @@ func buildFormula(root *Node, targets []*Node) string {
 					}
 					conj = append(conj, alt)
 					return conjoin(conj)
+				}
+				if canaryRun && (strings.Contains(n.Name, "#ensures") || strings.Contains(n.Name, "#frame")) {
+					// the vacuity canary asks whether a return is reachable at all: a postcondition
+					// that fails must not make it look unreachable
+					break
 				}
 				if n.T.S != "true" {
 					conj = append(conj, n.T.S)
